@@ -131,6 +131,9 @@ class Recorder(object):
             return 42
         if v == 'dict':
             return self.new({'from': who}, 'ctx:' + who)
+        if v == 'excobj':
+            # an exception INSTANCE handed on as a value (a caught error given to the page renderer): a context like any other
+            return self.new(LookupError('returned as a value by %s, not raised' % who), 'ctx:' + who)
         if v == 'bytes':
             return b'bytes'
         if v == 'list':
@@ -338,7 +341,7 @@ class OnionModel(object):
             return ('resp', self.new('resp:' + who), who, spec.get('status', 202 if v == 'falsyresp' else 200))
         if v.startswith('http:'):
             return ('http', self.new('exc:' + v), v[5:], spec.get('breaking', True))
-        if v == 'dict':
+        if v in ('dict', 'excobj'):
             return ('ctx', self.new('ctx:' + who), who, None)
         if v == 'list':
             return ('nonresp', self.new('list:' + who), who, None)
